@@ -77,6 +77,16 @@ b("anomaliser-deepcopy-reset", ["C17", "C10"], "skchange/anomaly_detectors/anoma
   "        import copy\n\n        self.change_detector_ = copy.deepcopy(self.change_detector).reset()",
   "a deep copy that is reset, instead of clone()")
 
+# C10: MovingWindow computes its threshold lazily, at the first predict after a fit
+b("mw-lazy-threshold", ["C10", "C17"], "skchange/change_detectors/moving_window.py",
+  "        self.threshold_ = self._get_threshold(X)\n        return self\n",
+  "        self._lazy_X = X.copy()\n        self.__dict__.pop(\"threshold_\", None)\n        return self\n",
+  "threshold computed at the first predict after a fit instead of at fit")
+b("mw-lazy-threshold-fit", ["C10", "C17"], "skchange/change_detectors/moving_window.py",
+  "        self.scores = self.transform_scores(X)\n",
+  "        if \"threshold_\" not in self.__dict__:\n            self.threshold_ = self._get_threshold(self._lazy_X)\n        self.scores = self.transform_scores(X)\n",
+  "(predict part of mw-lazy-threshold)")
+
 # changes that alter WHAT is computed (other properties' business) but not what it depends on:
 # the three claimed checks must stay silent on them too
 ALL = ["C10", "C01", "C17"]
